@@ -23,10 +23,20 @@ def wun(op, a):
 REV_NAMES = ["zf", "yf", "xf", "wf", "vf", "uf", "tf", "sf", "rf", "qf", "pf", "of"]
 
 
-def make_spec(ops, style, ftypes, generic=False, entry="attr", names="f"):
+BOUND_FORMS = [None, "trait()", "trait(..)", "common()", "common(..)", "field()", "field(..)", "field-bare"]
+
+
+def make_spec(ops, style, ftypes, generic=False, entry="attr", names="f", bound=None, bfield=0):
     """names: "f" -> f0, f1, .. (declaration order = sorted order up to 10 fields); "rev" -> names whose sorted order is the
     reverse of the declaration order."""
-    return {"ops": ops, "style": style, "ftypes": ftypes, "generic": generic, "entry": entry, "names": names}
+    # bound: an explicit bound(..) argument that changes nothing for these field types: `Op(bound())` / `Op(bound(..))` on the
+    # trait, shared `bound()` / `bound(..)`, or a field-level `#[derive_ex(Op(bound..))]` / bare `#[derive_ex(Op)]` on field `bfield`
+    if generic and bound in ("trait()", "common()", "field()"):
+        bound = bound[:-1] + "..)"      # without `..` the default bounds a generic type needs would be gone
+    if not ftypes and bound and bound.startswith("field"):
+        bound = None
+    return {"ops": ops, "style": style, "ftypes": ftypes, "generic": generic, "entry": entry, "names": names,
+            "bound": bound, "bfield": (bfield % len(ftypes)) if ftypes else 0}
 
 
 def fname(spec, i):
@@ -42,13 +52,20 @@ def type_text(spec):
     if spec["generic"]:
         ps = sorted({t for t in spec["ftypes"] if t in ("T", "U")})
         g = "<" + ", ".join(ps) + ">"
-    tl = ", ".join(spec["ops"])
+    b = spec.get("bound") or ""
+    arg = "bound(..)" if b.endswith("(..)") else "bound()"
+    tl = ", ".join(f"{o}({arg})" if b.startswith("trait") else o for o in spec["ops"]) + (f", {arg}" if b.startswith("common") else "")
+    if b.startswith("field"):
+        fl = ", ".join(o if b == "field-bare" else f"{o}({arg})" for o in spec["ops"])
+        fattr = {spec["bfield"]: f"#[derive_ex({fl})] "}
+    else:
+        fattr = {}
     head = f"#[::derive_ex::derive_ex({tl})]\n" if spec["entry"] == "attr" else f"#[derive(::derive_ex::Ex)]\n#[derive_ex({tl})]\n"
     if spec["style"] == "unit":
         return head + "pub struct Ty;"
     if spec["style"] == "tuple":
-        return head + f"pub struct Ty{g}(" + ", ".join(tys) + ");"
-    return head + f"pub struct Ty{g} {{ " + ", ".join(f"{fname(spec, i)}: {t}" for i, t in enumerate(tys)) + " }"
+        return head + f"pub struct Ty{g}(" + ", ".join(fattr.get(i, "") + t for i, t in enumerate(tys)) + ");"
+    return head + f"pub struct Ty{g} {{ " + ", ".join(f"{fattr.get(i, '')}{fname(spec, i)}: {t}" for i, t in enumerate(tys)) + " }"
 
 
 def inst(spec):
@@ -125,6 +142,8 @@ def control(spec):
     """Same program, derive_ex replaced by hand-written stub impls of every form: the harness itself must compile."""
     t = type_text(spec)
     t = "\n".join(l for l in t.splitlines() if not l.startswith("#["))
+    import re
+    t = re.sub(r"#\[derive_ex\(.*?\)\] ", "", t)
     g = ""
     if spec["generic"]:
         ps = sorted({x for x in spec["ftypes"] if x in ("T", "U")})
@@ -220,7 +239,8 @@ def corpus(tier, rng):
                 ft = ["term" if (i + k) % 3 else "w" for i in range(n)]
                 if n and "term" not in ft:
                     ft[0] = "term"
-                specs.append(make_spec([op], style, ft, entry="attr" if k % 2 else "derive", names="rev" if (style == "named" and k % 4 < 2) else "f"))
+                specs.append(make_spec([op], style, ft, entry="attr" if k % 2 else "derive", names="rev" if (style == "named" and k % 4 < 2) else "f",
+                                       bound=BOUND_FORMS[k % len(BOUND_FORMS)] if n >= 2 else None, bfield=1 + k // 3))
         # more than ten fields: member names / indices whose text order differs from the declaration order (f10 < f2, "10" < "2")
         for style in ("tuple", "named"):
             k += 1
@@ -232,7 +252,8 @@ def corpus(tier, rng):
         ft = [rng.choice(["T", "U", "term", "w"] if generic else ["term", "w"]) for _ in range(n)]
         generic = any(t in ("T", "U") for t in ft)
         ops = rng.sample(allops, rng.randint(1, 5))
-        specs.append(make_spec(ops, rng.choice(["tuple", "named"]), ft, generic, rng.choice(["attr", "derive"]), rng.choice(["f", "rev"])))
+        specs.append(make_spec(ops, rng.choice(["tuple", "named"]), ft, generic, rng.choice(["attr", "derive"]), rng.choice(["f", "rev"]),
+                               bound=rng.choice(BOUND_FORMS + [None, None]), bfield=rng.randrange(4)))
     return specs
 
 
